@@ -55,6 +55,7 @@ MM_Effect(op, arg, c) ==
     [] op = "oren" -> [c EXCEPT !.oren = c.oren + 1]
     [] op = "sim"  -> c
     [] op = "copy" -> c
+    [] op = "bad"  -> c        \* a call that is REJECTED (unknown output / compartment / parameter / malformed names): no effect
 MM_CopyOf(c) == [c EXCEPT !.sens = FALSE]                  \* copying resets the sensitivity settings
 
 \* ---- micro-actions on the hidden state ---------------------------------------------------------
@@ -89,13 +90,14 @@ Program(op, arg, c) ==
     [] op = "sim"  -> <<<<"run">>>>
     [] OTHER       -> <<>>
 
+BadKinds == {"outs", "adm", "sens", "pren"}
 Idle(m) == pend[m] = <<>>
 AllIdle == \A m \in Inst : Idle(m)
 
 Ops(c) == {<<"adm", a>> : a \in {"direct", "indirect"}} \cup {<<"reg", r>> : r \in Regs}
           \cup {<<"outs", o>> : o \in OutSels} \cup {<<"sens", b>> : b \in BOOLEAN}
           \cup (IF c.pren = 0 THEN {<<"pren", 0>>} ELSE {}) \cup (IF c.oren = 0 THEN {<<"oren", 0>>} ELSE {})
-          \cup {<<"sim", 0>>}
+          \cup {<<"sim", 0>>} \cup {<<"bad", k>> : k \in BadKinds}
 
 MM_Call(m, op, arg) ==
   /\ AllIdle /\ cfg[m].ex /\ nops < MaxOps
